@@ -757,10 +757,20 @@ func MakeTracesDependancyGraph(startEpoch int64, endEpoch int64, myid int64) map
 	return dependencyMatrix
 }
 
+// dependencyGraphColumn is the column of the service-dependency index that holds a stored dependency matrix.
+const dependencyGraphColumn = "graph"
+
 func writeDependencyMatrix(dependencyMatrix map[string]map[string]int, myid int64) {
-	dependencyMatrixJSON, err := json.Marshal(dependencyMatrix)
+	matrixJSON, err := json.Marshal(dependencyMatrix)
 	if err != nil {
 		log.Errorf("writeDependencyMatrix: Error marshaling dependency matrix:err=%v", err)
+		return
+	}
+	// The matrix is stored as one JSON string: ingesting it as a nested object would flatten it into columns
+	// "service.dependentService", which cannot be split back when a service name contains '.' or is empty.
+	dependencyMatrixJSON, err := json.Marshal(map[string]string{dependencyGraphColumn: string(matrixJSON)})
+	if err != nil {
+		log.Errorf("writeDependencyMatrix: Error marshaling dependency record:err=%v", err)
 		return
 	}
 
@@ -837,6 +847,7 @@ func ProcessAggregatedDependencyGraphs(ctx *fasthttp.RequestCtx, myid int64) {
 		return
 	}
 	processedData := make(map[string]interface{})
+	aggregatedGraph := make(map[string]map[string]int)
 	if dependencyResponseOuter.Hits.Hits == nil || len(dependencyResponseOuter.Hits.Hits) == 0 {
 		ctx.SetStatusCode(fasthttp.StatusOK)
 		_, writeErr := ctx.WriteString(utils.ErrNoDependencyGraphs)
@@ -861,24 +872,37 @@ func ProcessAggregatedDependencyGraphs(ctx *fasthttp.RequestCtx, myid int64) {
 					}
 					continue
 				}
+				if key == dependencyGraphColumn {
+					if graphJSON, isString := value.(string); isString {
+						storedGraph := make(map[string]map[string]int)
+						if err := json.Unmarshal([]byte(graphJSON), &storedGraph); err != nil {
+							log.Errorf("ProcessAggregatedDependencyGraphs: cannot parse stored graph %v, err=%v", graphJSON, err)
+							continue
+						}
+						for service, dependentServices := range storedGraph {
+							for dependentService, callCount := range dependentServices {
+								addDependencyCalls(aggregatedGraph, service, dependentService, callCount)
+							}
+						}
+						continue
+					}
+				}
+				// Graphs stored by earlier versions: one column "service.dependentService" per edge.
 				keys := strings.Split(key, ".")
 				if len(keys) != 2 {
-					fmt.Printf("Unexpected key format: %s\n", key)
+					log.Warnf("ProcessAggregatedDependencyGraphs: Unexpected key format: %s", key)
 					continue
 				}
-				service, dependentService := keys[0], keys[1]
-				if processedData[service] == nil {
-					processedData[service] = make(map[string]int)
-				}
-
-				serviceMap := processedData[service].(map[string]int)
-				if value != nil {
-					serviceMap[dependentService] += int(value.(float64))
+				if callCount, isNumber := value.(float64); isNumber {
+					addDependencyCalls(aggregatedGraph, keys[0], keys[1], int(callCount))
 				} else {
-					log.Warnf("MakeTracesDependancyGraph: Value is nil, cannot convert to float64")
+					log.Warnf("ProcessAggregatedDependencyGraphs: Value %v of %v is not a number", value, key)
 				}
 			}
 		}
+	}
+	for service, dependentServices := range aggregatedGraph {
+		processedData[service] = dependentServices
 	}
 
 	ctx.SetContentType("application/json; charset=utf-8")
@@ -892,6 +916,13 @@ func ProcessAggregatedDependencyGraphs(ctx *fasthttp.RequestCtx, myid int64) {
 		return
 	}
 	ctx.SetStatusCode(fasthttp.StatusOK)
+}
+
+func addDependencyCalls(graph map[string]map[string]int, service string, dependentService string, callCount int) {
+	if graph[service] == nil {
+		graph[service] = make(map[string]int)
+	}
+	graph[service][dependentService] += callCount
 }
 
 func convertEpochToString(value interface{}) (string, string) {
